@@ -17,6 +17,7 @@ by-design ones are kernel-checked witnesses below.
 -/
 import AnnetModel.Lemmas.Device
 import AnnetModel.Lemmas.Converge
+import AnnetModel.Lemmas.ConvergeExample
 
 /-! OBLIGATIONS
 Annet.Device.C01_put_refines
@@ -28,6 +29,7 @@ Annet.Device.C01_same_map_same_lines
 Annet.Device.C01_cmds_refine
 Annet.Device.C01_flat_converges
 Annet.Device.C01_flat_converges_lines
+Annet.Device.C01_flat_converges_nonvacuous
 Annet.Device.C01_full_false_permanent
 Annet.Device.C01_full_false_ignore_changes
 Annet.Device.C01_flat_default_witness_converges
@@ -145,6 +147,16 @@ theorem C01_flat_converges_lines (v : Vendor) (env : Env) (rules : PRules) (orde
     (rowsOf (applyCmds env rules (flatPaths r.patch) old)).Perm (rowsOf new) := by
   have h := C01_flat_converges v env rules ordering old new r hfr hfo hfn hko hkn hwo hwn hc hp hr
   exact Lemmas.same_map_perm rules _ _ h.1 hwn h.2
+
+/-- Non-vacuity: the hypotheses of `C01_flat_converges` are jointly satisfied by a concrete two-rule rulebook
+(`mtu` with undo_redo, `description` with default), an ordering rulebook, old = {mtu 1500, description a},
+new = {mtu 9000}; the theorem then yields convergence for it (`Lemmas/ConvergeExample.lean`). -/
+theorem C01_flat_converges_nonvacuous :
+    ∃ r, Api.deviceMode Patch.runLogic Converge.Example.v Converge.Example.rules Converge.Example.ordering true
+           Converge.Example.old Converge.Example.new = .ok r ∧
+      (rowsOf (applyCmds Converge.Example.env Converge.Example.rules (flatPaths r.patch) Converge.Example.old)).Perm
+        (rowsOf Converge.Example.new) :=
+  Converge.Example.flat_converges_instance'
 
 /-! ### the full-strength statement is false by design for `permanent` and `ignore_changes` -/
 
